@@ -14,7 +14,7 @@ from typing import Dict, List, Optional, Tuple
 import ase
 
 NAMES = ["", "a", "Layer 1", "bg", "Tag", "x" * 40, "été", "日本", "\U0001f600", "a", "Layer 1",
-         "zß", "long name with spaces", "\u0001", "\x7f"]
+         "zß", "long name with spaces", "\u0001", "\x7f", "key=1\0", "\0\0", " trailing space ", "\0"]
 
 
 def pick(rng: random.Random, lo: int, hi: int) -> int:
